@@ -8,6 +8,7 @@ from ..absint import TOP, Const, FuncRef, Interp, ListOf, Obj, Tup
 from ..domains.affine import A, AffineDomain, BoolC, Mat, Poly, RotSym, Sl, mkA
 from ..domains.frames import AffT, FramesDomain, Rot
 from ..domains.units import PX, UnitsDomain
+from ..match import Matcher
 from ..repo import calls_in, dotted, norm_src, walk_no_nested
 from .common import SinkTable, need_funcs, kwarg
 
@@ -342,12 +343,14 @@ def loader_clause(model, rep, funcs):
         found = True
         rep.instance("O.pairing", f.loc(lp))
         tgt = lp.target.id if isinstance(lp.target, ast.Name) else None
-        it_ok = isinstance(lp.iter, ast.Call) and dotted(lp.iter.func) == "range" and len(lp.iter.args) == 1 and "molecules" in norm_src(lp.iter.args[0]) and ("count" in norm_src(lp.iter.args[0]) or "len" in norm_src(lp.iter.args[0]))
+        MO_ = Matcher(f)
+        it_x = MO_.expr(lp.iter)  # `molecules = self.molecules; for i in range(molecules.count())`
+        it_ok = isinstance(it_x, ast.Call) and dotted(it_x.func) == "range" and len(it_x.args) == 1 and "molecules" in norm_src(it_x.args[0]) and ("count" in norm_src(it_x.args[0]) or "len" in norm_src(it_x.args[0]))
         rep.ob("O", f.anchor, "one iteration per molecule: loop ranges over the molecule count", it_ok, f"iterates over {norm_src(lp.iter)}",
                node=lp.iter, fn=f, clause="4 pairing")
         for c in prep:
             for slot in ("center", "rot"):
-                e = kwarg(c, slot)
+                e = MO_.expr(kwarg(c, slot), keep=((tgt,) if tgt else ()))  # `centers = molecules.pos / scale` ... `centers[i]`: same row of the same table
                 idx = [n for n in ast.walk(e) if isinstance(n, ast.Subscript)]
                 names = {norm_src(s.slice) for s in idx}
                 base_ok = "molecules" in norm_src(e)
